@@ -74,24 +74,34 @@ func readJSONLists() (lic, exc []jl) {
 	return
 }
 
-func writeSynthJSON(dir string, lic, exc []jl) {
-	type L struct {
-		IsDeprecated bool   `json:"isDeprecatedLicenseId"`
-		LicenseID    string `json:"licenseId"`
-		Name         string `json:"name"`
+// writeSynthJSON writes the two SPDX data files.  sparse != nil: entries that are not deprecated carry the flag as
+// false, as null, or not at all (seeded) - three spellings of "not deprecated" - and every entry carries the other
+// fields of the real files
+func writeSynthJSON(dir string, lic, exc []jl, sparse *SM64) {
+	entry := func(idKey string, x jl, i int) map[string]interface{} {
+		m := map[string]interface{}{idKey: x.ID, "name": "n", "referenceNumber": i, "seeAlso": []string{"https://example.org/" + x.ID}}
+		switch {
+		case x.Dep:
+			m["isDeprecatedLicenseId"] = true
+		case sparse == nil:
+			m["isDeprecatedLicenseId"] = false
+		default:
+			switch sparse.Intn(3) {
+			case 0:
+				m["isDeprecatedLicenseId"] = false
+			case 1:
+				m["isDeprecatedLicenseId"] = nil
+			}
+		}
+		return m
 	}
-	type E struct {
-		IsDeprecated bool   `json:"isDeprecatedLicenseId"`
-		LicenseID    string `json:"licenseExceptionId"`
-		Name         string `json:"name"`
+	ls := []map[string]interface{}{}
+	for i, x := range lic {
+		ls = append(ls, entry("licenseId", x, i))
 	}
-	var ls []L
-	for _, x := range lic {
-		ls = append(ls, L{x.Dep, x.ID, "n"})
-	}
-	var es []E
-	for _, x := range exc {
-		es = append(es, E{x.Dep, x.ID, "n"})
+	es := []map[string]interface{}{}
+	for i, x := range exc {
+		es = append(es, entry("licenseExceptionId", x, i))
 	}
 	j, _ := json.Marshal(map[string]interface{}{"licenseListVersion": "synthetic", "licenses": ls})
 	must(os.WriteFile(filepath.Join(dir, "licenses.json"), j, 0o644))
@@ -100,7 +110,7 @@ func writeSynthJSON(dir string, lic, exc []jl) {
 }
 
 // runGenerator runs the real cmd program in a scratch copy; returns the bytes of the three files it wrote.
-func runGenerator(scratch string, lic, exc []jl, useRepoJSON bool) (map[string][]byte, string) {
+func runGenerator(scratch string, lic, exc []jl, useRepoJSON bool, sparse *SM64) (map[string][]byte, string) {
 	os.RemoveAll(scratch)
 	cmdDir := filepath.Join(scratch, "cmd")
 	outDir := filepath.Join(scratch, "spdxexp", "spdxlicenses")
@@ -131,7 +141,7 @@ func runGenerator(scratch string, lic, exc []jl, useRepoJSON bool) (map[string][
 			must(os.WriteFile(filepath.Join(cmdDir, f), b, 0o644))
 		}
 	} else {
-		writeSynthJSON(cmdDir, lic, exc)
+		writeSynthJSON(cmdDir, lic, exc, sparse)
 	}
 	bin := filepath.Join(scratch, "gen.bin")
 	build := exec.Command("go", "build", "-o", bin, ".")
@@ -240,7 +250,7 @@ func genC12(c *Ctx) {
 		if os.Getenv("VERIF_RUNDIR") == "" {
 			scratch = filepath.Join(os.TempDir(), "verif-c12-gen")
 		}
-		files, errs := runGenerator(scratch, nil, nil, true)
+		files, errs := runGenerator(scratch, nil, nil, true, nil)
 		if errs != "" {
 			c12genCases = append(c12genCases, [2]string{"G X -", "G " + errs})
 		} else {
@@ -256,26 +266,30 @@ func genC12(c *Ctx) {
 				[2]string{pairsLine("D", lic), "G " + hx(string(files["get_deprecated.go"]))},
 				[2]string{pairsLine("E", exc), "G " + hx(string(files["get_exceptions.go"]))})
 		}
-		nsyn := 2
+		nsyn := 3
 		if c.thorough() {
-			nsyn = 8
+			nsyn = 9
 		}
 		r := &SM64{c.seed ^ 0xc12}
 		odd := []string{"A-1.0", "a-1.0+", "X.Y", "Z--", "0", "with-exception", "Q-only", "Q-or-later", "MIT", "mit-0"}
 		for k := 0; k < nsyn; k++ {
 			var sl, se []jl
-			n := r.Intn(12)
+			n := 4 + r.Intn(12)
 			for j := 0; j < n; j++ {
 				sl = append(sl, jl{odd[r.Intn(len(odd))] + strconv.Itoa(r.Intn(3)), r.Intn(3) == 0})
 			}
-			m := r.Intn(6)
+			m := 3 + r.Intn(6)
 			for j := 0; j < m; j++ {
-				se = append(se, jl{odd[r.Intn(len(odd))] + "-exception", r.Intn(4) == 0})
+				se = append(se, jl{odd[r.Intn(len(odd))] + "-exception", r.Intn(3) == 0})
 			}
 			if k == 0 {
 				sl, se = nil, nil
 			}
-			files, errs := runGenerator(scratch, sl, se, false)
+			var sparse *SM64
+			if k%2 == 0 {
+				sparse = r
+			}
+			files, errs := runGenerator(scratch, sl, se, false, sparse)
 			if errs != "" {
 				c12genCases = append(c12genCases, [2]string{pairsLine("L", sl), "G " + errs})
 				continue
@@ -679,9 +693,9 @@ type c14row struct {
 func runC14(c *Ctx, out string) {
 	self, err := os.Executable()
 	must(err)
-	ns := []int{6, 12, 24}
+	ns := []int{6, 12, 24, 48, 96, 192}
 	if c.thorough() {
-		ns = []int{6, 12, 24, 48, 96, 192}
+		ns = []int{6, 12, 24, 33, 48, 65, 96, 130, 192, 384, 768}
 	}
 	var rows []c14row
 	cc := newCtx("C14", c.tier, c.seed)
